@@ -45,13 +45,13 @@ type Step struct {
 
 // Loc is an address designator: either a path into a local cell, or a heap location.
 type Loc struct {
-	Alloc *ssa.Alloc
-	Steps []Step
-	Kind  string // "O" object field, "E" slice element, "G" global
-	Base  string // type string of the root object / element type
-	Path  string // leaf path prefix inside the root
-	Dims  []Term // index terms: O: [ref, arr idx...], E: [ref, idx, arr idx...], G: [arr idx...]
-	Type  types.Type
+	Alloc   *ssa.Alloc
+	Steps   []Step
+	Kind    string // "O" object field, "E" slice element, "G" global
+	Base    string // type string of the root object / element type
+	Path    string // leaf path prefix inside the root
+	Dims    []Term // index terms: O: [ref, arr idx...], E: [ref, idx, arr idx...], G: [arr idx...]
+	Type    types.Type
 	ArrRoot bool // E-kind designator of a whole heap-backed array (Dims = [ref]); indexing adds the element index
 }
 
